@@ -341,3 +341,7 @@ CHECK_DEADLOCK FALSE
 
     xextract.hist_part(ctx)
     xextract.stage_head_part(ctx)
+    # history freedom of the functions of their input behind this property (Pure.tla)
+    from vt.checks import xpure
+
+    xpure.pure_part(ctx, xpure.entries_for("C01"))
